@@ -148,6 +148,15 @@ def merge_stats(files):
     return tot
 
 
+def print_known(pid, listed, hit):
+    """One KNOWN-FINDING line per finding listed (open) for the property: the finding is a fact about the
+    tree, recorded with its reproduction in known_findings.json, whether or not this run's sample met it."""
+    for sig in sorted(listed):
+        cnt = hit.get(sig, 0)
+        print("KNOWN-FINDING: property=%s %s [signature %s, %s]" % (
+            pid, listed[sig]["what"], sig, "seen %d times in this run" % cnt if cnt else "not met by this run's sample"))
+
+
 def run_rc(pid, tier, seed, replay=None):
     P = PROPS[pid]
     t0 = time.time()
@@ -286,10 +295,7 @@ def run_rc(pid, tier, seed, replay=None):
         # 4. report
         wall = time.time() - t0
         listed = {k["signature"]: k for k in open_known(pid)}
-        for sig, cnt in sorted(known_hit.items()):
-            if sig in listed:
-                print("KNOWN-FINDING: property=%s %s [signature %s, seen %d times]" %
-                      (pid, listed[sig]["what"], sig, cnt))
+        print_known(pid, listed, known_hit)
         cov = {
             "evaluations": tot["evaluations"] + replayed,
             "distinct_nontrivial": len(tot["nontrivial"]),
